@@ -142,7 +142,7 @@ CHECKS.update({
     ),
     "C18": dict(
         category="proof",
-        text="Documented-class generator stream (README restrictions only). Safety half: every accepted program's closed forms equal the exact expectations of the Lean reference semantics at n=0..5 and refusals are exceptions. Liveness half: a refusal of a documented-class program is a violation unless attributed to the recorded finding F18 (finite type not inferred for a variable bounded only through its branch conditions), attributed by error call site AND by the in-memory repair 'declare the types' making the same program accepted and correct. Partial: in-class membership is by construction of the generator; termination of the monomial worklist is measured, not proved.",
+        text="Documented-class generator stream (README restrictions only). Safety half: every accepted program's closed forms equal the exact expectations of the Lean reference semantics at n=0..5 and refusals are exceptions. Liveness half: a refusal of a documented-class program is a violation unless attributed to the recorded finding F18 (finite type not inferred for a variable bounded only through its branch conditions), attributed by error call site AND by the in-memory repair 'declare the types' making the same program accepted and correct. Partial: in-class membership is by construction of the generator; termination of the monomial worklist is measured, not proved. PARTIAL: the Lean side contributes the reference semantics (with the theorems about it: merged run = un-merged run, respelling and renaming invariance) as the oracle of the safety half; membership of the documented class is the generator's construction and the acceptance (liveness) half is decided by running the real code on the stream, not by a theorem — no executable model can state 'Polar accepts' without being Polar.",
         design_ref="§4 C18",
         note="Trusted: Lean kernel/compiler, the generator's implementation of the README restrictions.",
         technique="differential correspondence on a documented-class generator stream against a Lean reference semantics",
